@@ -1,92 +1,95 @@
 #!/usr/bin/env python
-"""C12 (many connections at once, Select = the default Poller): an accepted
-connection whose descriptor number is >= FD_SETSIZE (1024) gets its connect
-event, is then silently thrown out of the Select poller by _preenDescriptors()
-and is never heard of again: bytes are not reported, the peer's close produces
-no disconnect, and the server keeps the open socket in _clients for ever."""
-import os
-import resource
+"""
+C12 demo 4: a TCPClient that receives a second `connect` while it is
+connecting or connected (two requests fired in the same loop iteration, a
+retry timer, ...) reports `connected` a second time for the same
+connection: observers see connected, connected, disconnected.
+"""
 import socket
 import sys
 
-from circuits import Component, handler
-from circuits.core.pollers import Select
-from circuits.net.sockets import TCPServer
+from circuits import Component, Manager
+from circuits.core import pollers
+from circuits.net.events import connect
+from circuits.net.sockets import TCPClient
 
 
 class Observer(Component):
-    channel = 'server'
+    channel = 'client'
 
     def init(self):
         self.log = []
 
-    @handler('connect')
-    def _on_connect(self, sock, *args):
-        self.log.append(('connect', sock.fileno()))
+    def connected(self, *args):
+        self.log.append('connected')
 
-    @handler('read')
-    def _on_read(self, sock, data):
-        self.log.append(('read', data))
+    def disconnected(self, *args):
+        self.log.append('disconnected')
 
-    @handler('disconnect')
-    def _on_disconnect(self, sock):
-        self.log.append(('disconnect',))
+    def unreachable(self, *args):
+        self.log.append('unreachable')
 
-    @handler('error')
-    def _on_error(self, *args):
-        self.log.append(('error', repr(args[-1])))
+    def error(self, *args):
+        self.log.append('error(%r)' % (args[-1],))
 
 
-def step(m, n=10):
-    for _ in range(n):
-        m.tick(0.01)
+def scenario(poller_cls, same_tick):
+    listener = socket.socket()
+    listener.bind(('127.0.0.1', 0))
+    listener.listen(5)
+    port = listener.getsockname()[1]
+
+    m = Manager()
+    poller_cls().register(m)
+    TCPClient().register(m)
+    o = Observer().register(m)
+    m._running = True
+    for _ in range(5):
+        m.tick(0)
+
+    m.fire(connect('127.0.0.1', port), 'client')
+    if not same_tick:
+        for _ in range(5):
+            m.tick(0)
+    m.fire(connect('127.0.0.1', port), 'client')
+    for _ in range(10):
+        m.tick(0)
+
+    listener.settimeout(1)
+    accepted = []
+    try:
+        while True:
+            accepted.append(listener.accept()[0])
+            listener.settimeout(0.05)
+    except OSError:
+        pass
+    for s in accepted:
+        s.close()  # the server ends the (one) connection
+    for _ in range(20):
+        m.tick(0)
+    listener.close()
+
+    n_conn = o.log.count('connected')
+    n_disc = o.log.count('disconnected')
+    print(
+        '%-6s second connect %s: %d TCP connection(s) reached the listener; observer saw %s'
+        % (poller_cls.__name__, 'in the same iteration' if same_tick else 'while connected      ', len(accepted), o.log)
+    )
+    return n_conn == n_disc
 
 
 def main():
-    soft, hard = resource.getrlimit(resource.RLIMIT_NOFILE)
-    want = 1100
-    if soft < want:
-        if hard != resource.RLIM_INFINITY and hard < want:
-            print('SKIP: cannot raise RLIMIT_NOFILE above 1024 here')
-            return 0
-        resource.setrlimit(resource.RLIMIT_NOFILE, (want, hard))
-
-    m = Observer()
-    poller = Select().register(m)
-    server = TCPServer(('127.0.0.1', 0)).register(m)
-    m._running = True
-    step(m, 5)
-
-    # stand-in for ~1000 other open connections/files of the process
-    filler = []
-    while not filler or filler[-1] < 1030:
-        filler.append(os.dup(0))
-
-    peer = socket.create_connection((server.host, server.port))
-    step(m)
-    peer.sendall(b'hello')
-    step(m)
-    peer.close()
-    step(m, 30)
-
-    for fd in filler:
-        os.close(fd)
-
-    names = [e[0] for e in m.log]
-    print('  events seen for the connection:', m.log)
-    print('  server._clients at quiescence :', server._clients)
-    print('  socket still known to poller  :', any(s in poller._read for s in server._clients))
     bad = False
-    if names.count('connect') == 1 and names.count('disconnect') != 1:
-        print('  -> connect without disconnect although the peer closed long ago')
-        bad = True
-    if server._clients:
-        print('  -> the server retains the socket (open descriptor %d) for ever' % server._clients[0].fileno())
-        bad = True
+    for name in ('Select', 'Poll', 'EPoll'):
+        if name == 'EPoll' and not hasattr(__import__('select'), 'epoll'):
+            continue
+        for same_tick in (True, False):
+            if not scenario(getattr(pollers, name), same_tick):
+                bad = True
     if bad:
-        print('VIOLATION: connection silently dropped by Select: no reads, no disconnect, state retained')
+        print('VIOLATION: one connection, two connected events, one disconnected')
         return 1
-    print('OK')
+    print('ok: as many disconnected as connected')
     return 0
 
 
